@@ -61,3 +61,37 @@ def shared_rule(run, modnames, rule='SHARED'):
             else:
                 run.ok(key, 'class-level containers %s are never modified through self' % sorted(shared), rule=rule)
     return n
+
+
+def default_copy_rule(run, modnames, rule='SHARED'):
+    """A module-level table of defaults that holds mutable values (lists, arrays, dictionaries) must be deep-copied
+    into each object: with the table itself, or a shallow copy of it, the lists inside are shared by every object and
+    by the table - what one object reads into them (default initial conditions, time steps) appears in all the others
+    and in every object created later."""
+    prog = run.prog
+    n = 0
+    for mn in modnames:
+        mod = prog.mod(mn)
+        tables = {}
+        for g, v in mod.globals.items():
+            if isinstance(v, ast.Dict) and any(isinstance(x, (ast.List, ast.Dict, ast.Set, ast.ListComp)) or
+                                               (isinstance(x, ast.Call) and norm(x.func).startswith('np.')) for x in v.values):
+                tables[g] = v
+        for fi in mod.all_functions():
+            for st in ast.walk(fi.node):
+                if not isinstance(st, ast.Assign): continue
+                used = [x.id for x in ast.walk(st.value) if isinstance(x, ast.Name) and x.id in tables]
+                if not used or not any(isinstance(t, ast.Attribute) for t in st.targets): continue
+                n += 1
+                g = used[0]
+                key = '%s :: %s copied deeply into the object' % (fi.short, g)
+                v = st.value
+                deep = isinstance(v, ast.Call) and (norm(v.func) in ('deepcopy', 'copy.deepcopy')) and v.args and norm(v.args[0]) == g
+                shallow = norm(v) in (g, '%s.copy()' % g, 'dict(%s)' % g, 'copy(%s)' % g, 'copy.copy(%s)' % g, '{**%s}' % g)
+                if deep: run.ok(key, norm(v), where=fi.where(st), rule=rule)
+                elif shallow:
+                    run.violated(key, '`%s` gives the object the very lists / arrays held in the module-level table %s (a shallow copy shares its '
+                                 'values): values read into them by one object show up in every other object and in all objects created later'
+                                 % (norm(st), g), where=fi.where(st), rule=rule)
+                else: run.unknown(key, 'form `%s` not recognised' % norm(v), where=fi.where(st), rule=rule)
+    return n
